@@ -165,6 +165,13 @@ func writeEvidence(ps *PropSpec, tier string, seed int, results []*harnessResult
 			"transitions = decisions taken on them, traces_validated_against_impl = native go-test replays (counterexamples and sample paths). " +
 			"exhaustive is true only if every harness drained its work-list with no budget hit, no unsupported construct and no undecided assertion. " + ps.Explanation,
 	}
+	for k, v := range extraCoverage {
+		cov[k] = v
+	}
+	if !extraExhaustive {
+		cov["exhaustive"] = false
+	}
+	violations += extraViolations
 	ev := map[string]any{
 		"property_id": ps.ID,
 		"tier":        tier,
